@@ -76,6 +76,13 @@ def D(t, x):
                 return d(a) / a
             if name == "sqrt":
                 return d(a) / (2 * u)
+            if name == "erf":
+                PI = z3.Real("pi")
+                return 2 / z3.Function("sqrt", R, R)(PI) * z3.Function("exp", R, R)(-(a * a)) * d(a)
+            if name == "arctan":
+                return d(a) / (1 + a * a)
+            if name == "tan":
+                return (1 + u * u) * d(a)
         raise NotImplementedError("derivative of %s" % u.decl().name())
 
     return d(t)
